@@ -752,6 +752,15 @@ class MayRaise:
                 for a in list(e.args) + list(e.kwargs.values()) + ([e.recv] if e.recv is not None else []):
                     self.check_term(a, e.node, facts, events, pos, out, seen)
                 self.check_call(e, facts, events, pos, out)
+                if not e.pure:
+                    # "this container is not empty" does not survive something that may take elements out of it: a
+                    # removing method on that very container, or a call into the repository (a helper such as
+                    # `self._prune(now)` may empty it) - only what is tested *after* such a call still holds
+                    f = e.node.ast.func if isinstance(e.node.ast, ast.Call) else None
+                    meth = f.attr if isinstance(f, ast.Attribute) else None
+                    repo_call = any(t.kind in ("repo", "callback", "unknown") for t in e.targets)
+                    if repo_call or meth in ("popleft", "pop", "clear", "remove", "popitem", "__delitem__"):
+                        pos[:] = [(a, pl) for a, pl in pos if not (isinstance(a, tuple) and a and a[0] == "nonempty" and (repo_call or a[1] == e.recv))]
             elif e.kind in ("store", "lstore", "return"):
                 self.check_term(e.value, e.node, facts, events, pos, out, seen)
                 if e.kind == "store":
